@@ -199,9 +199,12 @@ pub fn gen_adversarial(r: &mut Rng, layout: &str) -> Value {
             pq_opts(r, &mut t, layout, &mut tags);
             // GroupKeyReduction may take `b` (or `a`) for a unique key (finding C03-F1): the neutralised tables make `b` unique inside its range
             if stream == "packgroup" && !nullable {
-                if let Some(u) = uniquify(&b) {
+                // each key column that CAN look unique to the estimate (range >= row count) is made unique inside its range
+                let ua = uniquify(&a); let ub = uniquify(&b);
+                if ua.is_some() || ub.is_some() {
+                    let (a2, b2) = (ua.unwrap_or_else(|| a.clone()), ub.unwrap_or_else(|| b.clone()));
                     let mut t2 = t.clone();
-                    t2.rows = ints(&(0..n).map(|i| vec![a[i], u[i], 1 << (i % 20)]).collect::<Vec<_>>());
+                    t2.rows = ints(&(0..n).map(|i| vec![a2[i], b2[i], 1 << (i % 20)]).collect::<Vec<_>>());
                     neutral_tables = Some(vec![t2]);
                 }
             }
